@@ -3,6 +3,7 @@
  * Keys 1..NK, values 1..NV are spif_str objects; probes 0 and NK+1 lie below / above every storable key.
  * enc: text family of the objects (c03_util.h: 0 digits, 1 first byte sweeps 1..255, 2 last byte sweeps 1..255,
  *      -1 chosen per script from its id).
+ * mode (5th argument): full | compact, optionally followed by ",shades" (values are shaded pairs, see mv() below).
  * full: the read-back probes get/has_key of EVERY key of the universe after every step (small universes).
  * compact: (size sweeps, maps of thousands of keys) the state is read through the iterator and get/has_key are probed at
  *      the position classes smallest / second / middle / next-to-largest / largest / absent below, between, above.
@@ -13,6 +14,36 @@
 
 static long NK = 3, NV = 2;
 static long rb_count;         /* read-backs so far in this script: rotates the class of the probe objects */
+/* Shaded values (round 5: equal under comp, different in state comp ignores).  With shades = S > 1 the value number val is
+ * stored as objpair(key = text of (val-1)/S + 1, value = "(val-1)%S"): spif_objpair_comp() looks at the key only, so the S
+ * values of one group compare EQUAL (has_value cannot tell them apart) yet differ observably - and the map must keep
+ * exactly the one most recently set.  The read-back decodes BOTH parts, it never relies on comp for a stored value. */
+static long shades = 1;
+static spif_obj_t mv(long val, long cls) {
+    spif_obj_t k, w, p; char t[24];
+    if (shades <= 1) return cu_mkc(val, cls);
+    k = cu_mkc((val - 1) / shades + 1, cls);
+    snprintf(t, sizeof(t), "%ld", (val - 1) % shades);
+    w = SPIF_OBJ(spif_str_new_from_ptr((spif_charptr_t) t));
+    p = SPIF_OBJ(spif_objpair_new_from_both(k, w));
+    SPIF_OBJ_DEL(k); SPIF_OBJ_DEL(w);
+    return p;
+}
+static long vv(spif_obj_t o) {
+    long g; const char *t;
+    if (shades <= 1) return cu_val(o);
+    if (SPIF_OBJ_ISNULL(o)) return 0;
+    if (!SPIF_OBJ_IS_OBJPAIR(o) || SPIF_OBJ_ISNULL(SPIF_OBJPAIR(o)->key) || SPIF_OBJ_ISNULL(SPIF_OBJPAIR(o)->value)) return -1000002;
+    g = cu_val(SPIF_OBJPAIR(o)->key);
+    t = (const char *) SPIF_STR_STR(SPIF_STR(SPIF_OBJPAIR(o)->value));
+    if (g < 1 || !t || !isdigit((unsigned char) t[0])) return -1000003;
+    return (g - 1) * shades + atol(t) + 1;
+}
+static long cmpkey(long val) { return (val - 1) / shades; }          /* values with the same cmpkey compare EQUAL */
+static void vscribble(spif_obj_t o) {
+    if (shades <= 1) { cu_scribble(o); return; }
+    cu_scribble(SPIF_OBJPAIR(o)->key); cu_scribble(SPIF_OBJPAIR(o)->value);
+}
 static int compact = 0;
 static spif_map_t A, B;
 static spif_iterator_t IT;
@@ -37,7 +68,7 @@ static long pair_ordkey(spif_obj_t data, const char **msg) {
 static void sb_pair(vh_sb *b, spif_obj_t o) {
     if (SPIF_OBJ_ISNULL(o)) { sb_puts(b, "[]"); return; }
     if (!SPIF_OBJ_IS_OBJPAIR(o)) { sb_puts(b, "[not_a_pair]"); return; }
-    sb_printf(b, "[%ld,%ld]", cu_val(SPIF_OBJPAIR(o)->key), cu_val(SPIF_OBJPAIR(o)->value));
+    sb_printf(b, "[%ld,%ld]", cu_val(SPIF_OBJPAIR(o)->key), vv(SPIF_OBJPAIR(o)->value));
 }
 
 /* full read-back of a map through the public interface + representation invariants */
@@ -57,7 +88,7 @@ static const char *readback(spif_map_t M, const char *which, vh_sb *out) {
         spif_bool_t h = SPIF_MAP_HAS_KEY(M, probe);
         if (cu_val(probe) != k) CU_FAIL("%s:probe_key_changed_by_get", which);
         SPIF_OBJ_DEL(probe);
-        vals[k] = cu_val(r);
+        vals[k] = vv(r);
         if ((k == 0 || k == NK + 1) && !SPIF_OBJ_ISNULL(r)) CU_FAIL("%s:get(%s)!=NULL", which, k ? "above_max" : "below_min");
         if ((h ? 1 : 0) != (SPIF_OBJ_ISNULL(r) ? 0 : 1)) CU_FAIL("%s:has_key_disagrees_with_get", which);
         if (!SPIF_OBJ_ISNULL(r)) m++;
@@ -70,10 +101,10 @@ static const char *readback(spif_map_t M, const char *which, vh_sb *out) {
     if (m != n) CU_FAIL("%s:count=%ld_but_get_finds=%ld", which, n, m);
     /* has_value of every value and of one no map holds */
     for (v = 1; v <= NV + 1; v++) {
-        spif_obj_t probe = cu_mkc(v, 1 + ((v + rb_count) & 1)); int want = 0;
+        spif_obj_t probe = mv(v, 1 + ((v + rb_count) & 1)); int want = 0;
         spif_bool_t h = SPIF_MAP_HAS_VALUE(M, probe);
         SPIF_OBJ_DEL(probe);
-        for (k = 1; k <= NK; k++) if (vals[k] == v) want = 1;
+        for (k = 1; k <= NK; k++) if (vals[k] && cmpkey(vals[k]) == cmpkey(v)) want = 1;      /* has_value goes by comp */
         if ((h ? 1 : 0) != want) CU_FAIL("%s:has_value_wrong(%s_probe)", which, ((v + rb_count) & 1) ? "url" : "str");
     }
     /* the three listings: ascending by key, every entry once */
@@ -91,7 +122,7 @@ static const char *readback(spif_map_t M, const char *which, vh_sb *out) {
     if ((long) SPIF_LIST_COUNT(L) != n) { SPIF_LIST_DEL(L); CU_FAIL("%s:get_values_length", which); }
     for (k = 1, i = 0; k <= NK; k++) {
         if (!vals[k]) continue;
-        if (cu_val(SPIF_LIST_GET(L, (spif_listidx_t) i)) != vals[k]) { SPIF_LIST_DEL(L); CU_FAIL("%s:get_values_mismatch_at_%ld", which, i); }
+        if (vv(SPIF_LIST_GET(L, (spif_listidx_t) i)) != vals[k]) { SPIF_LIST_DEL(L); CU_FAIL("%s:get_values_mismatch_at_%ld", which, i); }
         i++;
     }
     SPIF_LIST_DEL(L);
@@ -102,7 +133,7 @@ static const char *readback(spif_map_t M, const char *which, vh_sb *out) {
         spif_obj_t p;
         if (!vals[k]) continue;
         p = SPIF_LIST_GET(L, (spif_listidx_t) i);
-        if (!SPIF_OBJ_IS_OBJPAIR(p) || cu_val(SPIF_OBJPAIR(p)->key) != k || cu_val(SPIF_OBJPAIR(p)->value) != vals[k]) {
+        if (!SPIF_OBJ_IS_OBJPAIR(p) || cu_val(SPIF_OBJPAIR(p)->key) != k || vv(SPIF_OBJPAIR(p)->value) != vals[k]) {
             SPIF_LIST_DEL(L); CU_FAIL("%s:get_pairs_mismatch_at_%ld", which, i);
         }
         i++;
@@ -116,7 +147,7 @@ static const char *readback(spif_map_t M, const char *which, vh_sb *out) {
         if (!vals[k]) continue;
         if (!SPIF_ITERATOR_HAS_NEXT(it)) { SPIF_ITERATOR_DEL(it); CU_FAIL("%s:iter_has_next_false_at_%ld_of_%ld", which, i, n); }
         p = SPIF_ITERATOR_NEXT(it);
-        if (!SPIF_OBJ_IS_OBJPAIR(p) || cu_val(SPIF_OBJPAIR(p)->key) != k || cu_val(SPIF_OBJPAIR(p)->value) != vals[k]) {
+        if (!SPIF_OBJ_IS_OBJPAIR(p) || cu_val(SPIF_OBJPAIR(p)->key) != k || vv(SPIF_OBJPAIR(p)->value) != vals[k]) {
             SPIF_ITERATOR_DEL(it); CU_FAIL("%s:iter_next_mismatch_at_%ld", which, i);
         }
         i++;
@@ -146,7 +177,7 @@ static const char *readback_compact(spif_map_t M, const char *which, vh_sb *out)
         if (!SPIF_ITERATOR_HAS_NEXT(it)) { SPIF_ITERATOR_DEL(it); CU_FAIL("%s:iter_has_next_false_at_%ld_of_%ld", which, i, n); }
         p = SPIF_ITERATOR_NEXT(it);
         if (!SPIF_OBJ_IS_OBJPAIR(p)) { SPIF_ITERATOR_DEL(it); CU_FAIL("%s:iter_next_not_a_pair_at_%ld", which, i); }
-        keys[i] = cu_val(SPIF_OBJPAIR(p)->key); vals[i] = cu_val(SPIF_OBJPAIR(p)->value);
+        keys[i] = cu_val(SPIF_OBJPAIR(p)->key); vals[i] = vv(SPIF_OBJPAIR(p)->value);
     }
     if (SPIF_ITERATOR_HAS_NEXT(it)) { SPIF_ITERATOR_DEL(it); CU_FAIL("%s:iter_has_next_true_after_%ld", which, n); }
     if (!SPIF_OBJ_ISNULL(SPIF_ITERATOR_NEXT(it))) { SPIF_ITERATOR_DEL(it); CU_FAIL("%s:iter_next_after_end!=NULL", which); }
@@ -167,7 +198,7 @@ static const char *readback_compact(spif_map_t M, const char *which, vh_sb *out)
         spif_bool_t h = SPIF_MAP_HAS_KEY(M, probe);
         SPIF_OBJ_DEL(probe);
         if (SPIF_OBJ_ISNULL(r) || !h) CU_FAIL("%s:get_misses_a_present_key(%s)", which, pc[q]);
-        if (cu_val(r) != vals[pos[q]]) CU_FAIL("%s:get_returns_a_wrong_value(%s)", which, pc[q]);
+        if (vv(r) != vals[pos[q]]) CU_FAIL("%s:get_returns_a_wrong_value(%s)", which, pc[q]);
     }
     probes[npr++] = 0; probes[npr++] = NK + 1;
     if (gap > 0) probes[npr++] = gap;
@@ -180,10 +211,10 @@ static const char *readback_compact(spif_map_t M, const char *which, vh_sb *out)
         if (!SPIF_OBJ_ISNULL(r) || h) CU_FAIL("%s:get_finds_an_absent_key", which);
     }
     for (v = 1; v <= NV + 1; v++) {
-        spif_obj_t probe = cu_mkc(v, 1 + ((v + rb_count) & 1)); int want = 0;
+        spif_obj_t probe = mv(v, 1 + ((v + rb_count) & 1)); int want = 0;
         spif_bool_t h = SPIF_MAP_HAS_VALUE(M, probe);
         SPIF_OBJ_DEL(probe);
-        for (i = 0; i < n; i++) if (vals[i] == v) { want = 1; break; }
+        for (i = 0; i < n; i++) if (cmpkey(vals[i]) == cmpkey(v)) { want = 1; break; }
         if ((h ? 1 : 0) != want) CU_FAIL("%s:has_value_wrong(%s_probe)", which, ((v + rb_count) & 1) ? "url" : "str");
     }
     /* the three listings */
@@ -197,8 +228,8 @@ static const char *readback_compact(spif_map_t M, const char *which, vh_sb *out)
         for (i = 0; i < n; i++) {
             spif_obj_t e = SPIF_ITERATOR_NEXT(it); int ok;
             if (q == 0) ok = cu_val(e) == keys[i];
-            else if (q == 1) ok = cu_val(e) == vals[i];
-            else ok = SPIF_OBJ_IS_OBJPAIR(e) && cu_val(SPIF_OBJPAIR(e)->key) == keys[i] && cu_val(SPIF_OBJPAIR(e)->value) == vals[i];
+            else if (q == 1) ok = vv(e) == vals[i];
+            else ok = SPIF_OBJ_IS_OBJPAIR(e) && cu_val(SPIF_OBJPAIR(e)->key) == keys[i] && vv(SPIF_OBJPAIR(e)->value) == vals[i];
             if (!ok) { SPIF_ITERATOR_DEL(it); SPIF_LIST_DEL(L); CU_FAIL("%s:%s_mismatch_at_%ld", which, ln[q], i); }
         }
         SPIF_ITERATOR_DEL(it);
@@ -221,7 +252,7 @@ static const char *dup_pairs_equal(void) {
             bad = "dup_shares_an_object_with_the_original";
         else if (SPIF_OBJ_CLASS(SPIF_OBJPAIR(x)->key) != SPIF_OBJ_CLASS(SPIF_OBJPAIR(y)->key)) bad = "dup_changed_the_class_of_a_key";
         else if (SPIF_OBJ_CLASS(SPIF_OBJPAIR(x)->value) != SPIF_OBJ_CLASS(SPIF_OBJPAIR(y)->value)) bad = "dup_changed_the_class_of_a_value";
-        else if (cu_val(SPIF_OBJPAIR(x)->key) != cu_val(SPIF_OBJPAIR(y)->key) || cu_val(SPIF_OBJPAIR(x)->value) != cu_val(SPIF_OBJPAIR(y)->value))
+        else if (cu_val(SPIF_OBJPAIR(x)->key) != cu_val(SPIF_OBJPAIR(y)->key) || vv(SPIF_OBJPAIR(x)->value) != vv(SPIF_OBJPAIR(y)->value))
             bad = "dup_pair_differs";
     }
     if (!bad && SPIF_ITERATOR_HAS_NEXT(ib)) bad = "dup_is_longer";
@@ -264,12 +295,12 @@ static const char *listing(spif_map_t M, int kind, long np, long dc, long reps, 
     if (np >= 0) {
         mine = (dc == 1) ? SPIF_LIST_NEW(array) : (dc == 2) ? SPIF_LIST_NEW(linked_list) : SPIF_LIST_NEW(dlinked_list);
         for (i = 1; i <= np; i++) {
-            spif_obj_t z = cu_mk(1000 + i);
             if (kind == 2) {
-                SPIF_LIST_APPEND(mine, SPIF_OBJ(spif_objpair_new_from_both(z, z)));
-                SPIF_OBJ_DEL(z);
+                spif_obj_t z = cu_mk(1000 + i), y = mv(1000 + i, 1);
+                SPIF_LIST_APPEND(mine, SPIF_OBJ(spif_objpair_new_from_both(z, y)));
+                SPIF_OBJ_DEL(z); SPIF_OBJ_DEL(y);
             } else {
-                SPIF_LIST_APPEND(mine, z);
+                SPIF_LIST_APPEND(mine, kind == 1 ? mv(1000 + i, 1) : cu_mk(1000 + i));
             }
         }
     }
@@ -285,7 +316,7 @@ static const char *listing(spif_map_t M, int kind, long np, long dc, long reps, 
     for (i = 0; i < n; i++) {
         spif_obj_t e = SPIF_LIST_GET(R, (spif_listidx_t) i);
         if (i) sb_putc(ret, ',');
-        if (kind == 2) sb_pair(ret, e); else sb_int(ret, cu_val(e));
+        if (kind == 2) sb_pair(ret, e); else sb_int(ret, kind == 1 ? vv(e) : cu_val(e));
     }
     sb_putc(ret, ']');
     SPIF_LIST_DEL(R);          /* the listing (copies of keys/values/pairs) and the caller's own entries are the caller's */
@@ -300,24 +331,24 @@ static const char *vh_step(const vh_step_t *st, vh_sb *ret, vh_sb *state) {
     if (op[0] == 'b' && op[1] == '_') { M = B; onb = 1; op += 2; if (OP("del")) op = "b_del"; }
 
     if (OP("set") || OP("set_keep")) {
-        spif_obj_t k = cu_mkc(vh_int(st->args[0]), cu_clsarg(st, 2)), v = cu_mkc(vh_int(st->args[1]), cu_clsarg(st, 3));
+        spif_obj_t k = cu_mkc(vh_int(st->args[0]), cu_clsarg(st, 2)), v = mv(vh_int(st->args[1]), cu_clsarg(st, 3));
         spif_bool_t r = SPIF_MAP_SET(M, k, v);
         sb_bool(ret, r);
         if (OP("set_keep")) {
             HK = k; HV = v; held = 1;
         } else {
             /* the caller's objects stay the caller's: change them, then delete them */
-            cu_scribble(k); cu_scribble(v);
+            cu_scribble(k); vscribble(v);
             SPIF_OBJ_DEL(k); SPIF_OBJ_DEL(v);
         }
     } else if (OP("set_pair")) {
-        spif_obj_t k = cu_mkc(vh_int(st->args[0]), cu_clsarg(st, 2)), v = cu_mkc(vh_int(st->args[1]), cu_clsarg(st, 3));
+        spif_obj_t k = cu_mkc(vh_int(st->args[0]), cu_clsarg(st, 2)), v = mv(vh_int(st->args[1]), cu_clsarg(st, 3));
         spif_objpair_t p = spif_objpair_new_from_both(k, v);
         spif_bool_t r;
         SPIF_OBJ_DEL(k); SPIF_OBJ_DEL(v);
         r = SPIF_MAP_SET(M, SPIF_OBJ(p), (spif_obj_t) NULL);
         sb_bool(ret, r);
-        cu_scribble(p->key); cu_scribble(p->value);
+        cu_scribble(p->key); vscribble(p->value);
         SPIF_OBJ_DEL(SPIF_OBJ(p));
     } else if (OP("set_from")) {
         /* aliased argument: the value IS the object the map stores under key j */
@@ -348,10 +379,10 @@ static const char *vh_step(const vh_step_t *st, vh_sb *ret, vh_sb *state) {
         sb_bool(ret, SPIF_MAP_SET(M, SPIF_OBJ(p), (spif_obj_t) NULL));
     } else if (OP("set_own_key")) {
         spif_objpair_t p = own_pair(M, vh_int(st->args[0]));
-        spif_obj_t v = cu_mkc(vh_int(st->args[1]), cu_clsarg(st, 2));
+        spif_obj_t v = mv(vh_int(st->args[1]), cu_clsarg(st, 2));
         if (SPIF_OBJPAIR_ISNULL(p)) { SPIF_OBJ_DEL(v); return "set_own_key:key_absent"; }
         sb_bool(ret, SPIF_MAP_SET(M, p->key, v));
-        cu_scribble(v); SPIF_OBJ_DEL(v);
+        vscribble(v); SPIF_OBJ_DEL(v);
     } else if (OP("remove_own_key")) {
         spif_objpair_t p = own_pair(M, vh_int(st->args[0]));
         spif_obj_t r;
@@ -364,14 +395,14 @@ static const char *vh_step(const vh_step_t *st, vh_sb *ret, vh_sb *state) {
         long mix = cu_clsarg(st, 4);
         if (stp < 1) return "fill_set:bad_step";
         for (k = lo; k <= hi; k += stp) {
-            spif_obj_t ko = cu_mkc(k, cu_mixcls(mix, k)), vo = cu_mkc(val, cu_mixcls(mix, k));
+            spif_obj_t ko = cu_mkc(k, cu_mixcls(mix, k)), vo = mv(val, cu_mixcls(mix, k));
             if (SPIF_MAP_SET(M, ko, vo)) rep++;
-            cu_scribble(ko); cu_scribble(vo);
+            cu_scribble(ko); vscribble(vo);
             SPIF_OBJ_DEL(ko); SPIF_OBJ_DEL(vo);
         }
         sb_int(ret, rep);
     } else if (OP("caller_mutates")) {
-        cu_scribble(HK); cu_scribble(HV); held = 2;
+        cu_scribble(HK); vscribble(HV); held = 2;
         sb_bool(ret, 1);
     } else if (OP("caller_deletes")) {
         SPIF_OBJ_DEL(HK); SPIF_OBJ_DEL(HV); HK = HV = (spif_obj_t) NULL; held = 0;
@@ -385,14 +416,14 @@ static const char *vh_step(const vh_step_t *st, vh_sb *ret, vh_sb *state) {
         sb_bool(ret, SPIF_MAP_DONE(M));
     } else if (OP("get")) {
         spif_obj_t probe = cu_mkc(vh_int(st->args[0]), cu_clsarg(st, 1));
-        sb_int(ret, cu_val(SPIF_MAP_GET(M, probe)));
+        sb_int(ret, vv(SPIF_MAP_GET(M, probe)));
         SPIF_OBJ_DEL(probe);
     } else if (OP("has_key")) {
         spif_obj_t probe = cu_mkc(vh_int(st->args[0]), cu_clsarg(st, 1));
         sb_bool(ret, SPIF_MAP_HAS_KEY(M, probe));
         SPIF_OBJ_DEL(probe);
     } else if (OP("has_value")) {
-        spif_obj_t probe = cu_mkc(vh_int(st->args[0]), cu_clsarg(st, 1));
+        spif_obj_t probe = mv(vh_int(st->args[0]), cu_clsarg(st, 1));
         sb_bool(ret, SPIF_MAP_HAS_VALUE(M, probe));
         SPIF_OBJ_DEL(probe);
     } else if (OP("count")) {
@@ -448,7 +479,8 @@ int main(int argc, char **argv) {
     cu_cls = argv[1];
     NK = atol(argv[2]); NV = atol(argv[3]);
     cu_enc_arg = atoi(argv[4]);
-    compact = !strcmp(argv[5], "compact");
+    compact = !strncmp(argv[5], "compact", 7);
+    if (strstr(argv[5], "shades")) shades = 2;        /* "full,shades" / "compact,shades" */
     if (NK < 1 || NK > 32000 || NV < 1 || (!compact && NK > 16000)) { fprintf(stderr, "bad NK/NV\n"); return 2; }
     if (cu_enc_arg == 2 && NK > 253) { fprintf(stderr, "family 2 needs NK <= 253\n"); return 2; }
     cu_N = NK;
